@@ -52,6 +52,8 @@ type Frame struct {
 	ParamEntry map[string]*Val
 	ParamCells map[string]*Cell
 	Rets       []*retRec
+	// states in which a call marked `maypanic` panicked (explored after the normal paths)
+	PanicStates []*State
 	edgePC     map[[2]int]*Term
 	EntryState *State
 	callOrd    map[string]int
@@ -66,6 +68,8 @@ type retRec struct {
 
 type Exec struct {
 	E         *Env
+	epochMerge map[int]*epochMergeRec
+	ghostGoTypes map[string]types.Type
 	pre       map[string]*Term
 	heapSorts map[string]*Sort
 	Obls      []*Obligation
@@ -276,6 +280,24 @@ func (X *Exec) newFrame(fn *ssa.Function, parent *Frame) *Frame {
 func (X *Exec) runBody(fr *Frame, st *State) {
 	cfg := analyzeCFG(fr.Fn)
 	X.runRegion(fr, cfg, nil, fr.Fn.Blocks[0], st, nil)
+	// panic paths: the deferred calls run with recover() returning the panic value; when one of them recovered,
+	// control resumes in the Recover block (which returns the named results); otherwise the panic leaves the function
+	if len(fr.PanicStates) > 0 {
+		ts := X.E.TS
+		ps := X.merge(fr.PanicStates)
+		fr.PanicStates = nil
+		if ps.Dead {
+			return
+		}
+		X.execRunDefers(fr, nil, ps)
+		if fr.Fn.Recover == nil {
+			return
+		}
+		ps.branch(ts, ts.Eq(X.heap(ps, "GH|~panicval", SIface), X.E.IfaceNil()))
+		X.execBlock(fr, fr.Fn.Recover, ps, func(succ *ssa.BasicBlock, s *State) {
+			panic("Recover block with successors")
+		})
+	}
 }
 
 type edgeState struct {
